@@ -66,7 +66,7 @@ SPEC = {
 
 
 def _driver(ctx):
-    return os.path.join(ctx["runner"].LEAN, ".lake", "build", "bin", "semadriver")
+    return ctx["runner"].driver_exe("C11")
 
 
 def _gen(ctx, tier, seed):
